@@ -50,6 +50,14 @@ fn payload_text(p: &(dyn std::any::Any + Send)) -> String {
     p.downcast_ref::<String>().cloned().or_else(|| p.downcast_ref::<&str>().map(|s| s.to_string())).unwrap_or_else(|| "<non-string>".into())
 }
 
+fn install_fake_times(injector: &mut InjectorPP, t: usize) {
+    match t {
+        0 => injector.when_called(inj::func!(fn(shared_fn)() -> u32)).will_execute(inj::fake!(func_type: fn() -> u32, returns: 100, times: 5)),
+        1 => injector.when_called(inj::func!(fn(shared_fn)() -> u32)).will_execute(inj::fake!(func_type: fn() -> u32, returns: 101, times: 5)),
+        _ => injector.when_called(inj::func!(fn(shared_fn)() -> u32)).will_execute(inj::fake!(func_type: fn() -> u32, returns: 102, times: 5)),
+    }
+}
+
 fn install_fake(injector: &mut InjectorPP, t: usize) {
     match t {
         0 => injector.when_called(inj::func!(fn(shared_fn)() -> u32)).will_execute_raw(inj::func!(fn(fake_t0)() -> u32)),
@@ -62,6 +70,8 @@ fn install_fake(injector: &mut InjectorPP, t: usize) {
 enum Kind {
     Injector,
     Preventer,
+    /// injector whose fake carries a call-count expectation that stays unmet: its scope exit panics
+    InjectorUnmet,
 }
 #[derive(Clone, Copy, PartialEq, Eq, Debug)]
 enum Exit {
@@ -83,10 +93,14 @@ fn crit_leave() {
 fn c04_round(t: usize, kind: Kind, exit: Exit) {
     let r = catch_unwind(AssertUnwindSafe(|| {
         match kind {
-            Kind::Injector => {
+            Kind::Injector | Kind::InjectorUnmet => {
                 let mut injector = InjectorPP::new();
                 crit_enter(t);
-                install_fake(&mut injector, t);
+                if kind == Kind::InjectorUnmet {
+                    install_fake_times(&mut injector, t);
+                } else {
+                    install_fake(&mut injector, t);
+                }
                 sched::point("h:installed");
                 for i in 0..2 {
                     let v = shared_fn();
@@ -121,6 +135,8 @@ fn c04_round(t: usize, kind: Kind, exit: Exit) {
         }
     }));
     match (r, exit) {
+        (Err(p), Exit::Scope) if kind == Kind::InjectorUnmet && payload_text(p.as_ref()).contains("expected to be called") => log(format!("t{t}:{kind:?}:verification-panicked")),
+        (Ok(()), Exit::Scope) if kind == Kind::InjectorUnmet => viol("unmet-expectation-not-reported", format!("thread {t}: an injector with an unmet call-count expectation went out of scope silently")),
         (Ok(()), Exit::Scope) => log(format!("t{t}:{kind:?}:ok")),
         (Err(p), Exit::Panic) if payload_text(p.as_ref()).starts_with("user panic") => log(format!("t{t}:{kind:?}:panicked")),
         (Err(p), _) => {
@@ -155,11 +171,11 @@ fn c04_scenario(spec: &[Vec<(Kind, Exit)>]) -> Scenario {
 }
 
 fn kinds() -> Vec<(Kind, Exit)> {
-    vec![(Kind::Injector, Exit::Scope), (Kind::Injector, Exit::Panic), (Kind::Preventer, Exit::Scope), (Kind::Preventer, Exit::Panic)]
+    vec![(Kind::Injector, Exit::Scope), (Kind::Injector, Exit::Panic), (Kind::Preventer, Exit::Scope), (Kind::Preventer, Exit::Panic), (Kind::InjectorUnmet, Exit::Scope)]
 }
 
 fn spec_to_json(spec: &[Vec<(Kind, Exit)>]) -> Value {
-    json!(spec.iter().map(|r| r.iter().map(|(k, e)| format!("{}{}", if *k == Kind::Injector { "I" } else { "P" }, if *e == Exit::Scope { "s" } else { "p" })).collect::<Vec<_>>()).collect::<Vec<_>>())
+    json!(spec.iter().map(|r| r.iter().map(|(k, e)| format!("{}{}", match k { Kind::Injector => "I", Kind::Preventer => "P", Kind::InjectorUnmet => "U" }, if *e == Exit::Scope { "s" } else { "p" })).collect::<Vec<_>>()).collect::<Vec<_>>())
 }
 fn spec_from_json(v: &Value) -> Vec<Vec<(Kind, Exit)>> {
     v.as_array()
@@ -171,7 +187,7 @@ fn spec_from_json(v: &Value) -> Vec<Vec<(Kind, Exit)>> {
                 .iter()
                 .map(|s| {
                     let s = s.as_str().unwrap();
-                    (if s.starts_with('I') { Kind::Injector } else { Kind::Preventer }, if s.ends_with('s') { Exit::Scope } else { Exit::Panic })
+                    (if s.starts_with('I') { Kind::Injector } else if s.starts_with('U') { Kind::InjectorUnmet } else { Kind::Preventer }, if s.ends_with('s') { Exit::Scope } else { Exit::Panic })
                 })
                 .collect()
         })
@@ -405,6 +421,10 @@ fn cases(check: &str, tier: &str) -> Vec<Value> {
         for a in &ks {
             for b in &ks {
                 for c in &ks {
+                    let unmet = [a, b, c].iter().filter(|k| k.0 == Kind::InjectorUnmet).count();
+                    if tier != "thorough" && unmet > 1 {
+                        continue;
+                    }
                     v.push(json!({"check": "c04", "spec": spec_to_json(&[vec![*a], vec![*b], vec![*c]]), "bound": if tier == "thorough" { 3 } else { 2 }, "cap": if tier == "thorough" { 400000 } else { 40000 }}));
                 }
             }
@@ -414,7 +434,8 @@ fn cases(check: &str, tier: &str) -> Vec<Value> {
             for a2 in &ks {
                 for b in &ks {
                     for b2 in &ks {
-                        if tier == "thorough" || (a == a2 || b == b2) {
+                        let unmet = [a, a2, b, b2].iter().filter(|k| k.0 == Kind::InjectorUnmet).count();
+                        if tier == "thorough" || ((a == a2 || b == b2) && unmet == 0) || (unmet == 1 && a == b && a2 == b2) {
                             v.push(json!({"check": "c04", "spec": spec_to_json(&[vec![*a, *a2], vec![*b, *b2]]), "bound": if tier == "thorough" { 3 } else { 2 }, "cap": if tier == "thorough" { 200000 } else { 20000 }}));
                         }
                     }
